@@ -101,8 +101,17 @@ def check_cfg(job):
         sc = max(1.0, float(np.abs(ex).max()))
         if not np.allclose(y, ex, atol=tol * sc, rtol=0):
             out.append(("value", "%s input: max |%s(x) - DFT-matrix definition| = %.3g" % (name, cfg["dir"], float(np.abs(y - ex).max()))))
-    # the same values in another memory layout (Fortran order, strided view): same transform, input untouched
     y_c = fn(x128, oshape=osh, axes=axes, center=cfg["center"], norm=norm)
+    # axes / oshape in other containers: lists, and tuples of NumPy integers (what shape arithmetic on arrays produces)
+    for lab, conv in (("lists", list), ("NumPy integers", lambda v: tuple(np.int64(t) for t in v))):
+        try:
+            yv = fn(x128, oshape=None if osh is None else conv(osh), axes=None if axes is None else conv(axes), center=cfg["center"], norm=norm)
+        except Exception as e:
+            out.append(("exception", "%s with axes / oshape given as %s raised %r" % (cfg["dir"], lab, e)))
+            continue
+        if yv.shape != y_c.shape or not np.array_equal(yv, y_c):
+            out.append(("value", "%s with axes / oshape given as %s differs from the call with tuples" % (cfg["dir"], lab)))
+    # the same values in another memory layout (Fortran order, strided view): same transform, input untouched
     for lab, xv in core.layouts(x128):
         xv0 = xv.copy()
         yv = fn(xv, oshape=osh, axes=axes, center=cfg["center"], norm=norm)
